@@ -1,5 +1,6 @@
 import Abmarl.Props.C03Base
 import Abmarl.Model.GridSim
+import Abmarl.Spec.GridSim
 /-!
 # C03 for every reachable state
 
@@ -12,10 +13,13 @@ namespace Abmarl
 open World
 
 /-- a reset that goes through a placement state and the three vitals components (the order in the
-list — the iteration order of the simulation's set of state components — is arbitrary) -/
+list — the iteration order of the simulation's set of state components — is arbitrary), in the
+regular oracle stream (a drawn initial health is never exactly 0; the other stream is the component
+`healthClosed`, finding K4) -/
 def FullReset (w0 : World) (cs : List StateComp) : Prop :=
   (∃ kind o, StateComp.position kind o ∈ cs) ∧ StateComp.health ∈ cs ∧ StateComp.ammo ∈ cs ∧
-  StateComp.orient ∈ cs ∧ ∀ kind o, StateComp.position kind o ∈ cs → wfPlacement kind o w0 = true
+  StateComp.orient ∈ cs ∧ StateComp.healthClosed ∉ cs ∧
+  ∀ kind o, StateComp.position kind o ∈ cs → wfPlacement kind o w0 = true
 
 /-- every reset of the history is a full one -/
 def ResetsFull (w0 : World) (ops : List (GOp × Tape)) : Prop :=
@@ -115,7 +119,7 @@ theorem runGOp_step {w0 w w' : World} {t : Tape} {op : GOp} (hcfg : CfgOK w0)
         | false => rw [(hn hatt).2]; exact hF
     · cases h; exact ⟨hF, hI⟩
   | reset cs =>
-    obtain ⟨hpos, hh, ha, ho, hwf⟩ := hfull cs rfl
+    obtain ⟨hpos, hh, ha, ho, hnc, hwf⟩ := hfull cs rfl
     simp only [runGOp] at h
     cases hr : applyComps cs w t with
     | error e => rw [hr] at h; cases h
@@ -127,13 +131,13 @@ theorem runGOp_step {w0 w w' : World} {t : Tape} {op : GOp} (hcfg : CfgOK w0)
       have hwf' : ∀ kind o, StateComp.position kind o ∈ cs → wfPlacement kind o w = true :=
         fun k o hm => by rw [wfPlacement_of_sframe hF]; exact hwf k o hm
       have hcfg' := cfgOK_of_sframe hF hcfg
-      refine ⟨?_, C03_reset_establishes cs w t w1 t1 hpos hh ha ho hwf' hcfg' (noAmmoC_of_WInv hI) hr⟩
+      refine ⟨?_, C03_reset_establishes cs w t w1 t1 hpos hh ha ho hnc hwf' hcfg' (noAmmoC_of_WInv hI) hr⟩
       obtain ⟨k0, o0, hm0⟩ := hpos
       have hlen : w.st.length = w.cfg.length := by
         have := hwf' k0 o0 hm0
         simp only [wfPlacement, Bool.and_eq_true, beq_iff_eq] at this
         exact this.1.1.1.2
-      exact hF.trans (applyComps_spec cs w t w1 t1 hwf' hcfg' hlen hr).1
+      exact hF.trans (applyComps_spec cs w t w1 t1 hwf' hcfg' hnc hlen hr).1
 
 theorem runGOps_inv {w0 : World} (hcfg : CfgOK w0) (ops : List (GOp × Tape)) :
     ∀ (w w' : World), ResetsFull w0 ops → SFrame w0 w → w.WInv = true → runGOps w ops = .ok w' →
@@ -164,7 +168,7 @@ was never written before the first reset. -/
 theorem C03_reachable (w0 : World) (cs0 : List StateComp) (t0 : Tape) (ops : List (GOp × Tape))
     (hcfg : CfgOK w0) (hn : NoAmmoC w0) (h0 : FullReset w0 cs0) (hR : ResetsFull w0 ops) {w : World}
     (h : runGOps w0 ((.reset cs0, t0) :: ops) = .ok w) : w.WInv = true := by
-  obtain ⟨hpos, hh, ha, ho, hwf⟩ := h0
+  obtain ⟨hpos, hh, ha, ho, hnc, hwf⟩ := h0
   simp only [runGOps, runGOp] at h
   cases hr : applyComps cs0 w0 t0 with
   | error e => rw [hr] at h; cases h
@@ -172,13 +176,13 @@ theorem C03_reachable (w0 : World) (cs0 : List StateComp) (t0 : Tape) (ops : Lis
     obtain ⟨w1, t1⟩ := r
     rw [hr] at h
     simp only [Except.map] at h
-    have hI1 := C03_reset_establishes cs0 w0 t0 w1 t1 hpos hh ha ho hwf hcfg hn hr
+    have hI1 := C03_reset_establishes cs0 w0 t0 w1 t1 hpos hh ha ho hnc hwf hcfg hn hr
     obtain ⟨k0, o0, hm0⟩ := hpos
     have hlen : w0.st.length = w0.cfg.length := by
       have := hwf k0 o0 hm0
       simp only [wfPlacement, Bool.and_eq_true, beq_iff_eq] at this
       exact this.1.1.1.2
-    have hF1 := (applyComps_spec cs0 w0 t0 w1 t1 hwf hcfg hlen hr).1
+    have hF1 := (applyComps_spec cs0 w0 t0 w1 t1 hwf hcfg hnc hlen hr).1
     exact (runGOps_inv hcfg ops w1 w hR hF1 hI1 h).2
 
 /-- every entry of the trace is the end of the run of a non-empty prefix -/
@@ -220,6 +224,417 @@ theorem C03_every_step (w0 : World) (cs0 : List StateComp) (t0 : Tape) (ops : Li
     exact C03_reachable w0 cs0 t0 (ops.take k) hcfg hn h0
       (fun cs t hm => hR cs t (List.mem_of_mem_take hm)) hk
 
+/-! ## The hypotheses as Booleans (what the driver evaluates as `pre`) -/
+
+theorem cfgOf_mem_or_default (w : World) (a : Aid) : w.cfgOf a ∈ w.cfg ∨ w.cfgOf a = {} := by
+  simp only [cfgOf, List.getD_eq_getElem?_getD]
+  cases hg : w.cfg[a]? with
+  | none => right; rfl
+  | some c => left; exact List.mem_of_getElem? hg
+
+theorem cfgOKb_iff (w : World) : cfgOKb w = true ↔ CfgOK w := by
+  constructor
+  · intro h
+    simp only [cfgOKb, List.all_eq_true, Bool.and_eq_true] at h
+    constructor
+    · intro a x hx
+      rcases cfgOf_mem_or_default w a with hm | hd
+      · have := (h _ hm).1
+        rw [hx] at this
+        simpa using this
+      · rw [hd] at hx; cases hx
+    · intro a x hx
+      rcases cfgOf_mem_or_default w a with hm | hd
+      · have := (h _ hm).2
+        rw [hx] at this
+        simpa using this
+      · rw [hd] at hx; cases hx
+  · intro h
+    simp only [cfgOKb, List.all_eq_true, Bool.and_eq_true]
+    intro c hc
+    obtain ⟨i, hi, rfl⟩ := List.getElem_of_mem hc
+    have hcf : w.cfgOf i = w.cfg[i] := by
+      simp [cfgOf, List.getD_eq_getElem?_getD, List.getElem?_eq_getElem hi]
+    constructor
+    · cases hh : (w.cfg[i]).initHealth with
+      | none => rfl
+      | some x =>
+        have := h.health i x (by rw [hcf]; exact hh)
+        simpa using this
+    · cases ho : (w.cfg[i]).initOrient with
+      | none => rfl
+      | some x =>
+        have := h.orient i x (by rw [hcf]; exact ho)
+        simpa using this
+
+theorem noAmmoCb_iff (w : World) : noAmmoCb w = true ↔ NoAmmoC w := by
+  simp only [noAmmoCb, NoAmmoC, List.all_eq_true, allAgents, List.mem_range, Bool.or_eq_true,
+    decide_eq_true_eq]
+  constructor
+  · intro h a ha hA
+    rcases h a ha with h | h
+    · rw [hA] at h; cases h
+    · exact h
+  · intro h a ha
+    cases hA : (w.cfgOf a).hasAmmo with
+    | false => right; exact h a ha hA
+    | true => left; rfl
+
+theorem any_isPosition_iff (cs : List StateComp) :
+    cs.any StateComp.isPosition = true ↔ ∃ kind o, StateComp.position kind o ∈ cs := by
+  simp only [List.any_eq_true]
+  constructor
+  · rintro ⟨c, hc, h⟩
+    cases c with
+    | position kind o => exact ⟨kind, o, hc⟩
+    | _ => cases h
+  · rintro ⟨kind, o, h⟩; exact ⟨_, h, rfl⟩
+
+theorem any_isHealth_iff (cs : List StateComp) :
+    cs.any StateComp.isHealth = true ↔ StateComp.health ∈ cs := by
+  simp only [List.any_eq_true]
+  constructor
+  · rintro ⟨c, hc, h⟩
+    cases c with
+    | health => exact hc
+    | _ => cases h
+  · intro h; exact ⟨_, h, rfl⟩
+
+theorem any_isAmmo_iff (cs : List StateComp) :
+    cs.any StateComp.isAmmo = true ↔ StateComp.ammo ∈ cs := by
+  simp only [List.any_eq_true]
+  constructor
+  · rintro ⟨c, hc, h⟩
+    cases c with
+    | ammo => exact hc
+    | _ => cases h
+  · intro h; exact ⟨_, h, rfl⟩
+
+theorem any_isOrient_iff (cs : List StateComp) :
+    cs.any StateComp.isOrient = true ↔ StateComp.orient ∈ cs := by
+  simp only [List.any_eq_true]
+  constructor
+  · rintro ⟨c, hc, h⟩
+    cases c with
+    | orient => exact hc
+    | _ => cases h
+  · intro h; exact ⟨_, h, rfl⟩
+
+theorem any_isHealthClosed_iff (cs : List StateComp) :
+    cs.any StateComp.isHealthClosed = true ↔ StateComp.healthClosed ∈ cs := by
+  simp only [List.any_eq_true]
+  constructor
+  · rintro ⟨c, hc, h⟩
+    cases c with
+    | healthClosed => exact hc
+    | _ => cases h
+  · intro h; exact ⟨_, h, rfl⟩
+
+theorem all_wfOn_iff (w0 : World) (cs : List StateComp) :
+    cs.all (StateComp.wfOn w0) = true ↔
+      ∀ kind o, StateComp.position kind o ∈ cs → wfPlacement kind o w0 = true := by
+  simp only [List.all_eq_true]
+  constructor
+  · intro h kind o hm; exact h _ hm
+  · intro h c hc
+    cases c with
+    | position kind o => exact h kind o hc
+    | _ => rfl
+
+/-- the Boolean the driver evaluates is the hypothesis `FullReset` of the theorems -/
+theorem fullResetb_iff (w0 : World) (cs : List StateComp) :
+    fullResetb w0 cs = true ↔ FullReset w0 cs := by
+  simp only [fullResetb, FullReset, Bool.and_eq_true, Bool.not_eq_true', any_isPosition_iff,
+    any_isHealth_iff, any_isAmmo_iff, any_isOrient_iff, all_wfOn_iff, and_assoc,
+    ← Bool.not_eq_true, any_isHealthClosed_iff]
+
+/-- `histPre` is: the configuration facts, and the history is a full reset followed by operations
+all of whose resets are full -/
+theorem histPre_iff (w0 : World) (ops : List (GOp × Tape)) :
+    histPre w0 ops = true ↔
+      CfgOK w0 ∧ NoAmmoC w0 ∧
+      ∃ cs0 t0 rest, ops = (.reset cs0, t0) :: rest ∧ FullReset w0 cs0 ∧ ResetsFull w0 rest := by
+  have hall : ∀ l : List (GOp × Tape),
+      (l.all fun p => p.1.resetsFullb w0) = true ↔ ResetsFull w0 l := by
+    intro l
+    simp only [List.all_eq_true, ResetsFull]
+    constructor
+    · intro h cs t hm
+      have := h _ hm
+      simpa only [GOp.resetsFullb, fullResetb_iff] using this
+    · intro h p hp
+      obtain ⟨op, t⟩ := p
+      cases op with
+      | reset cs => simpa only [GOp.resetsFullb, fullResetb_iff] using h cs t hp
+      | _ => rfl
+  simp only [histPre, Bool.and_eq_true, cfgOKb_iff, noAmmoCb_iff, and_assoc]
+  constructor
+  · rintro ⟨hc, hn, hfirst, hrest⟩
+    refine ⟨hc, hn, ?_⟩
+    cases ops with
+    | nil => cases hfirst
+    | cons p rest =>
+      obtain ⟨op, t0⟩ := p
+      cases op with
+      | reset cs0 =>
+        simp only [List.all_cons, Bool.and_eq_true, GOp.resetsFullb, fullResetb_iff] at hrest
+        exact ⟨cs0, t0, rest, rfl, hrest.1, (hall rest).mp hrest.2⟩
+      | _ => cases hfirst
+  · rintro ⟨hc, hn, cs0, t0, rest, rfl, hf, hr⟩
+    refine ⟨hc, hn, rfl, ?_⟩
+    simp only [List.all_cons, Bool.and_eq_true, GOp.resetsFullb, fullResetb_iff]
+    exact ⟨hf, (hall rest).mpr hr⟩
+
+/-! ## C03 on a trace -/
+
+/-- inside the invariant, a move or an attack by an active agent of the simulation with an action
+of its action space does not raise -/
+theorem runGOp_noRaise {w : World} {t : Tape} {op : GOp} (hI : w.WInv = true)
+    (hm : op.mustNotRaise w = true) : ∃ w', runGOp w t op = .ok w' := by
+  cases op with
+  | move c =>
+    simp only [GOp.mustNotRaise, Bool.and_eq_true, decide_eq_true_eq] at hm
+    obtain ⟨⟨ha, hact⟩, hsp⟩ := hm
+    have h12 := C12_moves w c hI ha hact hsp
+    have hg : (decide (c.agent < w.n) && (w.stOf c.agent).active && c.inSpace w) = true := by
+      simp [ha, hact, hsp]
+    simp only [runGOp, hg, if_true]
+    cases hr : runMoveCall w c with
+    | error e =>
+      rw [hr] at h12
+      cases c <;> simp [specC12] at h12
+    | ok o => exact ⟨o.post, rfl⟩
+  | attack cfg a act =>
+    simp only [GOp.mustNotRaise, Bool.and_eq_true, decide_eq_true_eq] at hm
+    obtain ⟨⟨ha, hact⟩, hsp⟩ := hm
+    have hpre : attackPre cfg w a act = true := by
+      simp [attackPre, hI, ha, hact, hsp]
+    obtain ⟨st, H, w', t', hp, _⟩ := attackOK_all cfg w a act t hpre
+    have hg : (decide (a < w.n) && (w.stOf a).active) = true := by simp [ha, hact]
+    exact ⟨w', by simp only [runGOp, hg, if_true, hp, Except.map]⟩
+  | reset cs => cases hm
+
+/-- the first, full reset from an arbitrary world -/
+theorem first_reset_step {w0 w1 : World} {cs0 : List StateComp} {t0 : Tape} (hcfg : CfgOK w0)
+    (hn : NoAmmoC w0) (h0 : FullReset w0 cs0) (h : runGOp w0 t0 (.reset cs0) = .ok w1) :
+    SFrame w0 w1 ∧ w1.WInv = true := by
+  obtain ⟨hpos, hh, ha, ho, hnc, hwf⟩ := h0
+  simp only [runGOp] at h
+  cases hr : applyComps cs0 w0 t0 with
+  | error e => rw [hr] at h; cases h
+  | ok r =>
+    obtain ⟨w', t1⟩ := r
+    rw [hr] at h
+    simp only [Except.map, Except.ok.injEq] at h
+    subst h
+    have hI1 := C03_reset_establishes cs0 w0 t0 w' t1 hpos hh ha ho hnc hwf hcfg hn hr
+    obtain ⟨k0, o0, hm0⟩ := hpos
+    have hlen : w0.st.length = w0.cfg.length := by
+      have := hwf k0 o0 hm0
+      simp only [wfPlacement, Bool.and_eq_true, beq_iff_eq] at this
+      exact this.1.1.1.2
+    exact ⟨(applyComps_spec cs0 w0 t0 w' t1 hwf hcfg hnc hlen hr).1, hI1⟩
+
+/-- from a world satisfying the invariant the model's trace passes the specification -/
+theorem specHist_from {w0 : World} (hcfg : CfgOK w0) (ops : List (GOp × Tape)) :
+    ∀ w : World, ResetsFull w0 ops → SFrame w0 w → w.WInv = true →
+      specC03HistFrom w ops (traceGOps w ops) = true := by
+  induction ops with
+  | nil => intro w _ _ _; simp [traceGOps, specC03HistFrom]
+  | cons p rest ih =>
+    intro w hR hF hI
+    obtain ⟨op, t⟩ := p
+    simp only [traceGOps]
+    cases h1 : runGOp w t op with
+    | error e =>
+      simp only [specC03HistFrom, List.isEmpty_nil, Bool.true_and, Bool.not_eq_true']
+      cases hm : op.mustNotRaise w with
+      | false => rfl
+      | true =>
+        obtain ⟨w', hw'⟩ := runGOp_noRaise (t := t) hI hm
+        rw [h1] at hw'; cases hw'
+    | ok w1 =>
+      obtain ⟨hF1, hI1⟩ := runGOp_step hcfg
+        (fun cs hc => hR cs t (by rw [hc]; exact List.mem_cons_self)) hF hI h1
+      simp only [specC03HistFrom, Bool.and_eq_true]
+      exact ⟨hI1, ih w1 (fun cs t' hm => hR cs t' (List.mem_cons_of_mem _ hm)) hF1 hI1⟩
+
+/-- **C03, in the form the judge evaluates** (`ghist`): for every initial world, every history and
+all tapes, if the hypotheses `histPre` hold — the history starts with a full reset, every reset is
+full, placement options and agent configuration are well-formed — then the model's trace satisfies
+`specC03Hist`: every world of the trace satisfies the invariant, no move or attack of an active agent
+with an action of its action space raises, and the trace covers every operation up to the first
+reset that fails.  A corollary of `C03_every_step` and its step lemma. -/
+theorem C03_hist (w0 : World) (ops : List (GOp × Tape)) (hpre : histPre w0 ops = true) :
+    specC03Hist w0 ops (traceGOps w0 ops) = true := by
+  obtain ⟨hcfg, hn, cs0, t0, rest, rfl, h0, hR⟩ := (histPre_iff w0 ops).mp hpre
+  simp only [specC03Hist, traceGOps]
+  cases h1 : runGOp w0 t0 (.reset cs0) with
+  | error e => simp [specC03HistFrom, GOp.mustNotRaise]
+  | ok w1 =>
+    obtain ⟨hF1, hI1⟩ := first_reset_step hcfg hn h0 h1
+    simp only [specC03HistFrom, Bool.and_eq_true]
+    exact ⟨hI1, specHist_from hcfg rest w1 hR hF1 hI1⟩
+
+/-- reading of the specification: every world of a trace that passes it satisfies the invariant -/
+theorem specC03Hist_worlds :
+    ∀ (ops : List (GOp × Tape)) (w0 : World) (tr : List (Except GErr World)),
+      specC03HistFrom w0 ops tr = true → ∀ w, Except.ok w ∈ tr → w.WInv = true := by
+  intro ops
+  induction ops with
+  | nil =>
+    intro w0 tr h w hw
+    simp only [specC03HistFrom, List.isEmpty_iff] at h
+    rw [h] at hw; cases hw
+  | cons p rest ih =>
+    intro w0 tr h w hw
+    cases tr with
+    | nil => cases hw
+    | cons r tr =>
+      cases r with
+      | error e =>
+        simp only [specC03HistFrom, Bool.and_eq_true, List.isEmpty_iff] at h
+        rw [h.1] at hw
+        simp at hw
+      | ok w1 =>
+        simp only [specC03HistFrom, Bool.and_eq_true] at h
+        rcases List.mem_cons.mp hw with hw | hw
+        · cases hw; exact h.1
+        · exact ih w1 tr h.2 w hw
+
+/-! ## Placement resets alone, the weak invariant -/
+
+theorem vitalsAlive_clauses {w : World} (h : w.vitalsAlive = true) :
+    HealthC w ∧ AmmoC w ∧ OrientC w ∧ NoAmmoC w := by
+  simp only [vitalsAlive, List.all_eq_true, allAgents, List.mem_range, Bool.and_eq_true,
+    decide_eq_true_eq, Bool.or_eq_true, Bool.not_eq_true'] at h
+  refine ⟨fun a ha => ?_, fun a ha hA => ?_, fun a ha hO => ?_, fun a ha _ => ?_⟩
+  · obtain ⟨⟨⟨⟨⟨h1, h2⟩, h3⟩, _⟩, _⟩, _⟩ := h a ha
+    exact ⟨h1, h2, h3⟩
+  · obtain ⟨⟨⟨_, h4⟩, h5⟩, _⟩ := h a ha
+    refine ⟨h4, ?_⟩
+    rcases h5 with h5 | h5
+    · rw [hA] at h5; cases h5
+    · exact h5
+  · obtain ⟨_, h6⟩ := h a ha
+    rcases h6 with h6 | h6
+    · rw [hO] at h6; cases h6
+    · exact h6
+  · exact (h a ha).1.1.2
+
+/-- **C03, placement states alone** (`gplace`, C03 component): for well-formed options a successful
+reset of any of the three placement states that finds everybody alive with legal vitals leaves a
+world satisfying the invariant -/
+theorem C03_place (kind : PKind) (o : PlaceOpts) (w : World) (t : Tape)
+    (hwf : wfPlacement kind o w = true) : specC03Place w (resetX kind o w t).1 = true := by
+  unfold specC03Place
+  cases herr : (resetX kind o w t).1.err with
+  | some e => simp
+  | none =>
+    cases hv : w.vitalsAlive with
+    | false => simp
+    | true =>
+      simp only [Option.isSome_none, Bool.not_true, Bool.or_self, Bool.false_or]
+      obtain ⟨hH, hA, hO, hN⟩ := vitalsAlive_clauses hv
+      have hlen : w.st.length = w.cfg.length := by
+        have := hwf
+        simp only [wfPlacement, Bool.and_eq_true, beq_iff_eq] at this
+        exact this.1.1.1.2
+      have hsym : w.wOverlapSym = true := by
+        have := hwf
+        simp only [wfPlacement, Bool.and_eq_true] at this
+        exact this.1.1.2
+      have hr : placementReset kind o w t = .ok ((resetX kind o w t).1.post, (resetX kind o w t).2) := by
+        simp only [placementReset, PlaceOut.toExcept, herr]
+      obtain ⟨hS, hN', hP', hH', hA', hO'⟩ := placement_clauses kind o w t _ _ hwf hlen hr
+      have hsym' : (resetX kind o w t).1.post.wOverlapSym = true := by
+        have hpk : (resetX kind o w t).1.post.pairOK = w.pairOK := by
+          funext a b; simp [pairOK, hS.overlap]
+        simp only [wOverlapSym, hS.overlap, hpk] at hsym ⊢
+        exact hsym
+      exact WInv_of_clauses hP' (hH' hH) (hA' hA) (hO' hO) (hN' hN) hsym'
+
+/-- the invariant implies its form for simulations that deactivate agents by hand -/
+theorem WInvWeak_of_WInv {w : World} (h : w.WInv = true) : w.WInvWeak = true := by
+  simp only [WInv, WInvWeak, Bool.and_eq_true, List.all_eq_true] at h ⊢
+  obtain ⟨⟨⟨h1, h2⟩, h3⟩, h4⟩ := h
+  refine ⟨⟨⟨h1, h2⟩, fun a ha => ?_⟩, h4⟩
+  have := h3 a ha
+  simp only [wAgent, wAgentWeak, Bool.and_eq_true, decide_eq_true_eq, beq_iff_eq, Bool.or_eq_true,
+    Bool.not_eq_true'] at this ⊢
+  obtain ⟨⟨⟨⟨⟨⟨g1, g2⟩, g3⟩, g4⟩, g5⟩, g6⟩, g7⟩ := this
+  refine ⟨⟨⟨⟨⟨⟨g1, g2⟩, g3⟩, ?_⟩, g5⟩, g6⟩, g7⟩
+  cases hact : (w.stOf a).active with
+  | false => left; rfl
+  | true => right; rw [hact] at g4; simpa using g4.symm
+
+/-! ## Examples: the hypotheses are inhabited, the judge rejects broken worlds, finding K4 -/
+
+/-- a 1×3 world before the first reset: agent 0 (encoding 1, initial health 1) moves, drifts and
+attacks with one round of ammunition and strength 1; agent 1 (encoding 2, initial health 1/2) and
+agent 2 (encoding 2, health drawn) may share a cell with each other -/
+def c03Sim : World :=
+  { rows := 1, cols := 3, overlap := [(2, [2])], cells := [[], [], []],
+    cfg := [{ enc := 1, initHealth := some 1, moving := true, moveRange := 1, hasOrient := true,
+              attacking := true, attackRange := 1, strength := 1, hasAmmo := true, initAmmo := 1 },
+            { enc := 2, initHealth := some (1 / 2) }, { enc := 2 }],
+    st := [{}, {}, {}] }
+
+def c03Full : List StateComp := [.orient, .position .position {}, .ammo, .health]
+def c03Attack : AttackCfg := ⟨.binary, [(1, [2])], false⟩
+
+/-- reset (orientation 3 = right; agent 0 on (0,0), agents 1 and 2 together on (0,2); agent 2 draws
+the health 701/1024); the mover steps right; it attacks (one of the two agents next to it — agent 1 —
+is hit, dies and leaves the grid; the ammunition is used up); its drift to the right is blocked by
+agent 2; a second episode -/
+def c03Ops : List (GOp × Tape) :=
+  [(.reset c03Full, [2, 0, 1, 1, 700]), (.move (.cross 0 3), []), (.attack c03Attack 0 (.count 1), [0, 0, 0]),
+   (.move (.drift 0 0), []), (.reset c03Full, [0, 2, 2, 0, 5])]
+
+example : histPre c03Sim c03Ops = true := by decide +kernel
+example : (match traceGOps c03Sim c03Ops with
+    | [.ok w1, .ok w2, .ok w3, .ok w4, .ok w5] =>
+      (w1.cells == [[0], [], [1, 2]]) && (w2.cells == [[], [0], [1, 2]]) && (w3.cells == [[], [0], [2]]) &&
+      !(w3.stOf 1).active && ((w3.stOf 0).ammo == 0) && (w4 == w3) && (w5.cells == [[1, 2], [], [0]]) &&
+      (w5.stOf 1).active && ((w5.stOf 0).ammo == 1)
+    | _ => false) = true := by decide +kernel
+example : specC03Hist c03Sim c03Ops (traceGOps c03Sim c03Ops) = true := C03_hist _ _ (by decide +kernel)
+
+/-- the judge rejects a trace in which a dead agent still stands on the grid … -/
+example : specC03Hist c03Sim [(.reset c03Full, [])]
+    [.ok { c03Sim with
+           cells := [[0], [1], [2]],
+           st := [{ pos := (0, 0), ammo := 1 }, { pos := (0, 1), health := 1 / 2 },
+                  { pos := (0, 2), health := 0, active := false }] }] = false := by decide +kernel
+/-- … one in which an agent's position and its cell disagree, and one in which an in-space move of
+an active agent raises -/
+example : specC03Hist c03Sim [(.reset c03Full, [])]
+    [.ok { c03Sim with
+           cells := [[0], [1], [2]],
+           st := [{ pos := (0, 1), ammo := 1 }, { pos := (0, 1), health := 1 / 2 },
+                  { pos := (0, 2), health := 1 / 4 }] }] = false := by decide +kernel
+example : specC03Hist c03Sim [(.reset c03Full, []), (.move (.cross 0 3), [])]
+    [.ok { c03Sim with
+           cells := [[0], [1], [2]],
+           st := [{ pos := (0, 0), ammo := 1 }, { pos := (0, 1), health := 1 / 2 },
+                  { pos := (0, 2), health := 1 / 4 }] }, .error .keyError] = false := by decide +kernel
+/-- a reset may fail, and the history ends there -/
+example : specC03Hist c03Sim [(.reset c03Full, []), (.move (.cross 0 3), [])] [.error .noCell] = true := by
+  decide +kernel
+
+/-- **finding K4** (outside `histPre`: the component `healthClosed` is the oracle stream in which
+`np.random.uniform(0, 1)` may return exactly 0.0): agent 2 draws the health 0, is inactive right
+after the reset and yet stands on the grid.  The model reproduces this and the specification
+rejects it; with the agent taken out of its cell the world satisfies the invariant. -/
+def c03K4 : List (GOp × Tape) :=
+  [(.reset [.healthClosed, .position .position {}, .ammo, .orient], [0, 0, 1, 2, 0])]
+example : histPre c03Sim c03K4 = false := by decide +kernel
+example : (match traceGOps c03Sim c03K4 with
+    | [.ok w] => ((w.stOf 2).health == 0) && !(w.stOf 2).active && (w.cells == [[0], [2], [1]]) &&
+                 !w.WInv && (w.dropFromCells [2]).WInv
+    | _ => false) = true := by decide +kernel
+example : specC03Hist c03Sim c03K4 (traceGOps c03Sim c03K4) = false := by decide +kernel
+
 /-! ## Non-vacuity: the hypotheses are met by a dirty world, and a history with a move, a kill, a
 blocked move and a second episode runs to its end -/
 
@@ -257,7 +672,7 @@ theorem exDirtyNoAmmo : NoAmmoC exDirtyWorld := by
   rcases a with _ | _ | _ | a <;> simp [exDirtyWorld, stOf]
 
 theorem exDirtyFull : FullReset exDirtyWorld exResetComps := by
-  refine ⟨⟨.position, {}, by simp [exResetComps]⟩, by simp [exResetComps], by simp [exResetComps], by simp [exResetComps], ?_⟩
+  refine ⟨⟨.position, {}, by simp [exResetComps]⟩, by simp [exResetComps], by simp [exResetComps], by simp [exResetComps], by simp [exResetComps], ?_⟩
   intro kind o hm
   simp only [exResetComps, List.mem_cons, reduceCtorEq, StateComp.position.injEq, List.not_mem_nil, or_false, false_or] at hm
   obtain ⟨rfl, rfl⟩ := hm
